@@ -30,6 +30,17 @@ from .passes import (
 ElaboratableType = TypeVar("ElaboratableType", bound=Elaboratables)
 
 
+class ConnTypesRepeat(ConnTypes):
+    """The post-flattening repeat of `ConnTypes`.
+    Each `ElabPass` sub-class has its own cache of completed Modules;
+    re-listing `ConnTypes` itself would skip every Module it has already checked."""
+
+
+class OrphanageRepeat(Orphanage):
+    """The post-flattening repeat of `Orphanage`. See `ConnTypesRepeat`."""
+
+
+
 @datatype
 class Elaborator:
     """
@@ -57,8 +68,8 @@ class Elaborator:
                 #
                 # A couple repeats
                 #
-                ConnTypes,
-                Orphanage,
+                ConnTypesRepeat,
+                OrphanageRepeat,
                 #
                 # And final module-marking
                 #
